@@ -33,6 +33,10 @@ pub enum Set {
     Compressed,
     Uncompressed,
     Relay,
+    /// the options that must not change the ISI or the handshake: 0 relay_websocket(true) 1 connect_timeout
+    /// 2 verify_version(false) 3 tcp_nodelay(false) 4 relay_select_host 5 relay_spectator_password
+    /// 6 relay_admin_password 7 relay_websocket(false)
+    Other(u8),
 }
 
 const FLAG_BITS: [u16; 10] = [5, 2, 3, 4, 6, 7, 8, 9, 10, 11]; // mci local mso_cols nlp con obh hlv axm_load axm_edit req_join
@@ -65,6 +69,16 @@ fn apply(b: Builder, s: &Set) -> Builder {
         Set::Compressed => b.compressed(),
         Set::Uncompressed => b.uncompressed(),
         Set::Relay => b.relay(),
+        Set::Other(k) => match k {
+            0 => b.relay_websocket(true),
+            1 => b.connect_timeout(Duration::from_secs(3)),
+            2 => b.verify_version(false),
+            3 => b.tcp_nodelay(false),
+            4 => b.relay_select_host(Some("some host".to_string())),
+            5 => b.relay_spectator_password(Some("spec".to_string())),
+            6 => b.relay_admin_password(Some("adm".to_string())),
+            _ => b.relay_websocket(false),
+        },
     }
 }
 
@@ -94,7 +108,7 @@ fn ref_apply(r: &mut Ref, s: &Set) {
         Set::UdpNone => { r.proto = 1; r.udp_local = None },
         Set::UdpSome => { r.proto = 1; r.udp_local = Some(local()) },
         Set::Relay => r.proto = 2,
-        Set::Compressed | Set::Uncompressed => {},
+        Set::Compressed | Set::Uncompressed | Set::Other(_) => {},
     }
 }
 
@@ -209,6 +223,11 @@ fn isi_configs() -> Vec<(&'static str, Vec<Set>)> {
         // the builder was a relay builder before it became a direct one
         ("was-relay", vec![Set::Relay]),
         ("was-relay+flags", vec![Set::Flag(3, true), Set::Relay, Set::Flag(0, true)]),
+        // every option that has nothing to do with the ISI, alone and together, on a plain and on a former relay builder
+        ("other-options", (0..8).map(Set::Other).collect()),
+        ("relay-options", vec![Set::Other(4), Set::Other(5), Set::Other(6)]),
+        ("was-relay+relay-options", vec![Set::Relay, Set::Other(4), Set::Other(5), Set::Other(6), Set::Other(0)]),
+        ("relay-host", vec![Set::Other(4)]),
     ]
 }
 
@@ -355,6 +374,23 @@ pub fn run(tier: Tier, replay: Option<String>) -> i32 {
             }
         }
     }
+    // every subset of the eight options that have nothing to do with the ISI, on three base builders
+    for base in 0..3u8 {
+        for mask in 0..256u32 {
+            acc.eval();
+            let mut sets: Vec<Set> = match base { 0 => vec![], 1 => vec![Set::Flags(2), Set::Prefix(1), Set::Reqi(255)], _ => vec![Set::Relay, Set::IName(1)] };
+            for k in 0..8u8 { if mask & (1 << k) != 0 { sets.push(Set::Other(k)); } }
+            let mut b = Builder::default();
+            let mut r = Ref::default();
+            for s in &sets { b = apply(b, s); ref_apply(&mut r, s); }
+            let replay = json!({"site": "other-options", "base": base, "mask": mask});
+            match guard(|| real_isi(&b.isi())) {
+                Err(p) => acc.violate(mask as u64, "C18|builder|isi-panics|other-options".into(), format!("options {mask:#010b} on base {base}: {p}"), replay),
+                Ok(got) if got == ref_isi(&r) => { acc.class("other-options-leave-the-isi-alone"); acc.nontrivial(); },
+                Ok(got) => acc.violate(mask as u64, "C18|builder|isi-changed-by-unrelated-option".into(), format!("options {mask:#010b} on base {base}: ISI is {got}, the configured options give {}", ref_isi(&r)), replay),
+            }
+        }
+    }
     // text arguments: names and passwords of every length 0..=40, with a 2-, 3- or 4-byte character at
     // every offset, carets and page switches at the cut - isi() must not panic and must encode to the
     // frame of an ISI carrying exactly that text (the text field rule itself is C11's)
@@ -403,7 +439,7 @@ pub fn run(tier: Tier, replay: Option<String>) -> i32 {
     let _ = extra.insert("connect_cases".into(), json!(connects));
     crate::report::finish(crate::report::Outcome {
         property: "C18".into(), tier, level: "model_checking", acc,
-        rule: format!("all builder states reachable with a {}-setter alphabet ({} flag helpers on/off, wholesale flags x3, prefix x2, interval x3, iname x2, admin x2, reqi x3, tcp, udp without/with local address, compressed, uncompressed, relay); every transition replays the setter history on a fresh Builder and compares isi() with a reference builder; plus 192 connects (tcp / udp without / with local address x mode x blocking/tokio x 8 ISI configurations incl. a builder that was a relay builder before x size mode chosen first / last) against loopback peers; plus names and passwords of every length 0..=40 and with multi-byte characters / carets at every offset 0..=20", alpha.len(), if tier == Tier::Thorough { 10 } else { 5 }),
+        rule: format!("all builder states reachable with a {}-setter alphabet ({} flag helpers on/off, wholesale flags x3, prefix x2, interval x3, iname x2, admin x2, reqi x3, tcp, udp without/with local address, compressed, uncompressed, relay); every transition replays the setter history on a fresh Builder and compares isi() with a reference builder; plus 288 connects (tcp / udp without / with local address x mode x blocking/tokio x 12 ISI configurations incl. a builder that was a relay builder before and every option unrelated to the ISI x size mode chosen first / last); every subset of the 8 unrelated options on 3 base builders against loopback peers; plus names and passwords of every length 0..=40 and with multi-byte characters / carets at every offset 0..=20", alpha.len(), if tier == Tier::Thorough { 10 } else { 5 }),
         exhaustive: true, extra,
         assumptions: vec!["state key = Debug rendering of the real Builder + the reference ISI".into(), "UDP without a local address is expected to announce UDPPort 0 (LFS then replies to the source port)".into()],
         started,
